@@ -277,6 +277,20 @@ def gen_cases(seed, chunk, n, tier):
                     kk = dict(pykw, **okw)
                     if not omit_charge:
                         kk["charge"] = charge
+                    if not static and rng.random() < 0.7:
+                        # call history on the generic class: the same tables, directions and total charge built
+                        # first under ANOTHER symmetry that accepts these charges (results must depend on the
+                        # arguments only, never on what was built before)
+                        allc = [c for ix in x0.indices for c in ix.chargemap] + [charge]
+                        twins = [t for t in gen.SYMS if t != sym and all(gen.py_valid(t, c) for c in allc)]
+                        for t in twins:
+                            try:
+                                tix = [sr.BlockIndex(dict(ix.chargemap), dual=ix.dual) for ix in x0.indices]
+                                cls.from_fill_fn(fill, tix, charge=charge, symmetry=t,
+                                                 **({"oddpos": okw["oddpos"]} if (okw and gen.py_parity(t, charge)) else {}))
+                                meta["twin_history"] = True
+                            except Exception:  # noqa
+                                pass
                     x = cls.from_fill_fn(fill, x0.indices, **kk)
                     res.append({"ok": [ser.enc_val(x)]})
                     direct = cls(indices=x0.indices, charge=charge,
